@@ -37,6 +37,8 @@ pub struct Occ {
     pub cells: Vec<(Relocatable, Option<Felt252>)>,
     /// values of operands that define alternative decompositions (divisor / scalar), if any
     pub aux: Vec<Felt252>,
+    /// values of all input operands of the hint, in declaration order
+    pub ins: Vec<Felt252>,
 }
 
 pub enum Mode {
@@ -90,6 +92,33 @@ fn pure_outputs(h: &CoreHint) -> Option<(Vec<CellRef>, Vec<ResOperand>)> {
     })
 }
 
+/// Input operands of the hints for which kind-specific lies are generated.
+fn hint_inputs(h: &CoreHint) -> Vec<ResOperand> {
+    match h {
+        CoreHint::TestLessThan { lhs, rhs, .. }
+        | CoreHint::TestLessThanOrEqual { lhs, rhs, .. }
+        | CoreHint::WideMul128 { lhs, rhs, .. }
+        | CoreHint::DivMod { lhs, rhs, .. } => vec![lhs.clone(), rhs.clone()],
+        CoreHint::SquareRoot { value, .. } => vec![value.clone()],
+        CoreHint::LinearSplit { value, scalar, max_x, .. } => {
+            vec![value.clone(), scalar.clone(), max_x.clone()]
+        }
+        CoreHint::Uint256DivMod { dividend0, dividend1, divisor0, divisor1, .. } => {
+            vec![dividend0.clone(), dividend1.clone(), divisor0.clone(), divisor1.clone()]
+        }
+        CoreHint::Uint512DivModByUint256 {
+            dividend0, dividend1, dividend2, dividend3, divisor0, divisor1, ..
+        } => vec![
+            dividend0.clone(), dividend1.clone(), dividend2.clone(), dividend3.clone(),
+            divisor0.clone(), divisor1.clone(),
+        ],
+        CoreHint::Uint256SquareRoot { value_low, value_high, .. } => {
+            vec![value_low.clone(), value_high.clone()]
+        }
+        _ => vec![],
+    }
+}
+
 fn kind_of(h: &CoreHint) -> String {
     format!("{h:?}").chars().take_while(|c| c.is_alphanumeric()).collect()
 }
@@ -105,10 +134,12 @@ impl HintProcessorLogic for Tamper<'_> {
             return self.inner.execute_hint(vm, exec_scopes, hint_data);
         }
         let pure = match hint_data.downcast_ref::<Hint>() {
-            Some(Hint::Core(CoreHintBase::Core(h))) => pure_outputs(h).map(|o| (kind_of(h), o)),
+            Some(Hint::Core(CoreHintBase::Core(h))) => {
+                pure_outputs(h).map(|o| (kind_of(h), o, hint_inputs(h)))
+            }
             _ => None,
         };
-        let Some((kind, (outs, auxs))) = pure else {
+        let Some((kind, (outs, auxs), inps)) = pure else {
             return self.inner.execute_hint(vm, exec_scopes, hint_data);
         };
         let index = self.counter;
@@ -126,12 +157,14 @@ impl HintProcessorLogic for Tamper<'_> {
             }
             Mode::Record => {
                 let aux: Vec<Felt252> = auxs.iter().filter_map(|r| get_val(vm, r).ok()).collect();
+                let ins: Vec<Felt252> = inps.iter().filter_map(|r| get_val(vm, r).ok()).collect();
+                let ins = if ins.len() == inps.len() { ins } else { vec![] };
                 self.inner.execute_hint(vm, exec_scopes, hint_data)?;
                 let cells = addrs
                     .iter()
                     .map(|a| (*a, vm.get_integer(*a).ok().map(|c| c.into_owned())))
                     .collect();
-                self.log.push(Occ { index, kind, cells, aux });
+                self.log.push(Occ { index, kind, cells, aux, ins });
                 Ok(())
             }
             _ => self.inner.execute_hint(vm, exec_scopes, hint_data),
@@ -262,6 +295,107 @@ pub fn mutations(occ: &Occ, rng: &mut Rng) -> Vec<(String, Vec<Option<Felt252>>)
             push("decomp-1".into(), vec![Some(x - Felt252::ONE), Some(y + d)]);
         }
     }
+    // ---- lies by hint kind: the off-by-modulus solutions of the relation the code checks ----
+    let p = vcommon::stark_prime();
+    let big = |f: &Felt252| f.to_bigint();
+    let fe = |v: &BigInt| felt(&(((v % &p) + &p) % &p));
+    let mask = pow2(128) - 1;
+    match (occ.kind.as_str(), occ.ins.len()) {
+        ("DivMod", 2) => {
+            let (a, b) = (big(&occ.ins[0]), big(&occ.ins[1]));
+            if b > BigInt::from(0) {
+                for k in 1..=3 {
+                    let n: BigInt = &a + &p * k;
+                    let (q, r): (BigInt, BigInt) = (&n / &b, &n % &b);
+                    push(format!("modulus:a+{k}P"), vec![Some(fe(&q)), Some(fe(&r))]);
+                }
+                // (q, r) with r >= b and with q beyond 2^128
+                let (q1, r1): (BigInt, BigInt) = (&a / &b - 1, &a % &b + &b);
+                push("modulus:q-1,r+b".into(), vec![Some(fe(&q1)), Some(fe(&r1))]);
+                push("modulus:q=0,r=a".into(), vec![Some(Felt252::ZERO), Some(fe(&a))]);
+            }
+        }
+        ("WideMul128", 2) => {
+            let prod: BigInt = big(&occ.ins[0]) * big(&occ.ins[1]);
+            for k in 1..=2 {
+                let n: BigInt = &prod + &p * k;
+                let (hi, lo): (BigInt, BigInt) = (&n >> 128, &n & &mask);
+                push(format!("modulus:ab+{k}P"), vec![Some(fe(&hi)), Some(fe(&lo))]);
+            }
+            push("modulus:high=0,low=ab".into(), vec![Some(Felt252::ZERO), Some(fe(&prod))]);
+        }
+        ("SquareRoot", 1) => {
+            let v = big(&occ.ins[0]);
+            for k in 1..=2 {
+                let n: BigInt = &v + &p * k;
+                push(format!("modulus:sqrt(v+{k}P)"), vec![Some(fe(&n.sqrt()))]);
+            }
+        }
+        ("LinearSplit", 3) => {
+            let (v, sc, mx) = (big(&occ.ins[0]), big(&occ.ins[1]), big(&occ.ins[2]));
+            if sc > BigInt::from(0) {
+                for k in 1..=2 {
+                    let n: BigInt = &v + &p * k;
+                    let x: BigInt = std::cmp::min(&n / &sc, mx.clone());
+                    let y: BigInt = &n - &x * &sc;
+                    push(format!("modulus:v+{k}P"), vec![Some(fe(&x)), Some(fe(&y))]);
+                }
+                let ymax: BigInt = &v - &mx * &sc;
+                push("modulus:x=max".into(), vec![Some(fe(&mx)), Some(fe(&ymax))]);
+                push("modulus:x=0".into(), vec![Some(Felt252::ZERO), Some(fe(&v))]);
+            }
+        }
+        ("Uint256SquareRoot", 2) if honest.iter().all(|h| h.is_some()) => {
+            let v: BigInt = big(&occ.ins[0]) + (big(&occ.ins[1]) << 128);
+            let s = v.sqrt();
+            for d in [-1i32, 1] {
+                let s2: BigInt = &s + d;
+                if s2 < BigInt::from(0) {
+                    continue;
+                }
+                let rem: BigInt = &v - &s2 * &s2;
+                let t: BigInt = &s2 * 2 - &rem;
+                let flag = t >= pow2(128);
+                let two64 = pow2(64);
+                let (s_lo, s_hi): (BigInt, BigInt) = (&s2 % &two64, &s2 / &two64);
+                let r_lo: BigInt = ((&rem % pow2(128)) + pow2(128)) % pow2(128);
+                let r_hi: BigInt = (&rem - &r_lo) >> 128;
+                push(
+                    format!("resqrt{d:+}"),
+                    vec![
+                        Some(fe(&s_lo)), Some(fe(&s_hi)), Some(fe(&r_lo)), Some(fe(&r_hi)),
+                        Some(if flag { Felt252::ONE } else { Felt252::ZERO }),
+                    ],
+                );
+            }
+        }
+        ("Uint256DivMod", 4) | ("Uint512DivModByUint256", 6) if honest.iter().all(|h| h.is_some()) => {
+            // dividend + k * 2^(128 * limbs) and + P : other solutions modulo the limb arithmetic
+            let nl = occ.ins.len() - 2;
+            let mut a = BigInt::from(0);
+            for i in 0..nl {
+                a += big(&occ.ins[i]) << (128 * i);
+            }
+            let b: BigInt = big(&occ.ins[nl]) + (big(&occ.ins[nl + 1]) << 128);
+            if b > BigInt::from(0) {
+                let alts: Vec<(&str, BigInt)> =
+                    vec![("a+P", &a + &p), ("a+2^128", &a + pow2(128)), ("a+b*2^128", &a + (&b << 128))];
+                for (nm, n) in alts {
+                    let (q, r): (BigInt, BigInt) = (&n / &b, &n % &b);
+                    let mut v: Vec<Option<Felt252>> = vec![];
+                    for i in 0..nl {
+                        let l: BigInt = (&q >> (128 * i)) & &mask;
+                        v.push(Some(fe(&l)));
+                    }
+                    let (r0, r1): (BigInt, BigInt) = (&r & &mask, &r >> 128);
+                    v.push(Some(fe(&r0)));
+                    v.push(Some(fe(&r1)));
+                    push(format!("modulus:{nm}"), v);
+                }
+            }
+        }
+        _ => {}
+    }
     if occ.kind == "Uint256DivMod" && occ.aux.len() == 2 && honest.iter().all(|h| h.is_some()) {
         let h: Vec<Felt252> = honest.iter().map(|x| x.unwrap()).collect();
         push(
@@ -276,6 +410,72 @@ pub fn mutations(occ: &Occ, rng: &mut Rng) -> Vec<(String, Vec<Option<Felt252>>)
     out
 }
 
+/// What a wrapper's header says about it: `// spec: <kind> <ints...>` (the mathematical meaning of
+/// the instantiation, for the honest-run oracle) and `// extra<i>: <ints...>` (thresholds of the
+/// instantiation to be used as operands of parameter i).
+#[derive(Default, Clone)]
+pub struct Meta {
+    pub spec: Option<(String, Vec<BigInt>)>,
+    pub extra: Vec<Vec<BigInt>>,
+    pub class: Option<String>,
+}
+pub fn parse_meta(src: &str) -> Meta {
+    let mut m = Meta::default();
+    let ints = |s: &str| -> Vec<BigInt> { s.split_whitespace().filter_map(|x| x.parse::<BigInt>().ok()).collect() };
+    for l in src.lines() {
+        let l = l.trim();
+        if let Some(r) = l.strip_prefix("// spec:") {
+            let mut it = r.trim().splitn(2, ' ');
+            let k = it.next().unwrap_or("").to_string();
+            m.spec = Some((k, ints(it.next().unwrap_or(""))));
+        } else if let Some(r) = l.strip_prefix("// class:") {
+            m.class = Some(r.trim().to_string());
+        } else if let Some(r) = l.strip_prefix("// extra") {
+            if let Some((i, vals)) = r.split_once(':') {
+                if let Ok(i) = i.trim().parse::<usize>() {
+                    while m.extra.len() <= i {
+                        m.extra.push(vec![]);
+                    }
+                    m.extra[i] = ints(vals);
+                }
+            }
+        }
+    }
+    m
+}
+
+/// Honest-run oracle for the parametric wrappers: the mathematically expected result felts.
+pub fn expected_from_spec(spec: &(String, Vec<BigInt>), a: &[BigInt]) -> Option<Vec<BigInt>> {
+    let p = vcommon::stark_prime();
+    let f = |v: &BigInt| ((v % &p) + &p) % &p;
+    let (k, c) = (spec.0.as_str(), &spec.1);
+    let z = BigInt::from(0);
+    let one = BigInt::from(1);
+    Some(match k {
+        "constrain" => vec![if a[0] < c[0] { z.clone() } else { one.clone() }, f(&a[0])],
+        "div_rem" => {
+            if a[1] <= z || a[0] < z {
+                return None;
+            }
+            vec![f(&(&a[0] / &a[1])), f(&(&a[0] % &a[1]))]
+        }
+        "add" => vec![f(&(&a[0] + &a[1]))],
+        "sub" => vec![f(&(&a[0] - &a[1]))],
+        "mul" => vec![f(&(&a[0] * &a[1]))],
+        "trim" => {
+            if a[0] == c[0] { vec![z.clone(), z.clone()] } else { vec![one.clone(), f(&a[0])] }
+        }
+        "downcast" => {
+            if c[0] <= a[0] && a[0] <= c[1] { vec![z.clone(), f(&a[0])] } else { vec![one.clone(), z.clone()] }
+        }
+        "is_zero" => {
+            if a[0] == z { vec![z.clone(), z.clone()] } else { vec![one.clone(), f(&a[0])] }
+        }
+        "ident" => vec![f(&a[0])],
+        _ => return None,
+    })
+}
+
 pub struct WrapperReport {
     pub name: String,
     pub tuples: usize,
@@ -287,6 +487,9 @@ pub struct WrapperReport {
     pub violations: Vec<serde_json::Value>,
     pub samples: Vec<serde_json::Value>,
     pub hint_kinds: std::collections::BTreeMap<String, usize>,
+    /// (hint kind, lie kind) -> number of lying runs
+    pub lies: std::collections::BTreeMap<(String, String), usize>,
+    pub oracle_checked: usize,
     pub error: Option<String>,
 }
 
@@ -298,10 +501,18 @@ fn fmt_val(v: &RunResultValue) -> String {
 }
 
 /// The whole exploration for one wrapper.
-pub fn explore(name: &str, program: &Program, param_tys: &[Ty], full: bool, seed: u64) -> WrapperReport {
+pub fn explore(
+    name: &str,
+    program: &Program,
+    param_tys: &[Ty],
+    meta: &Meta,
+    full: bool,
+    seed: u64,
+) -> WrapperReport {
     let mut rep = WrapperReport {
         name: name.to_string(), tuples: 0, honest_failed: 0, occurrences: 0, mutated: 0, failed: 0, same: 0,
-        violations: vec![], samples: vec![], hint_kinds: Default::default(), error: None,
+        violations: vec![], samples: vec![], hint_kinds: Default::default(), lies: Default::default(),
+        oracle_checked: 0, error: None,
     };
     let runner = match SierraCasmRunner::new(program.clone(), None, Default::default(), None) {
         Ok(r) => r,
@@ -317,19 +528,49 @@ pub fn explore(name: &str, program: &Program, param_tys: &[Ty], full: bool, seed
     }
     let mut rng = Rng(h);
     let (cap, nrand) = if full { (400, 40) } else { (40, 8) };
-    let tuples = crate::operands::tuples(param_tys, full, cap, nrand, &mut rng);
-    for t in &tuples {
+    // wrappers with multi-limb parameters run the limb cross product: fewer random extras there
+    let tuples = crate::operands::tuples_with(param_tys, &meta.extra, full, cap, nrand, &mut rng);
+    // every tuple gets its honest run (and the honest-result oracle); at most `budget` of them,
+    // evenly spread, are additionally re-run with lies (the limb cross products are large)
+    let budget = if full { 500 } else { 120 };
+    let stride = tuples.len().div_ceil(budget).max(1);
+    for (ti, t) in tuples.iter().enumerate() {
         let felts: Vec<BigInt> =
             t.iter().zip(param_tys).flat_map(|(v, ty)| ty.to_felts(v)).collect();
         rep.tuples += 1;
         let (honest, log, _) = run_once(&runner, &felts, Mode::Record, 2_000_000);
         let Outcome::Value(hv) = &honest else {
             rep.honest_failed += 1;
-            if rep.error.is_none() {
-                rep.error = Some(format!("honest run failed on {:?}: {:?}", t, honest));
+            if rep.violations.len() < 5 {
+                rep.violations.push(serde_json::json!({
+                    "wrapper": name, "args": t.iter().map(|x| x.to_string()).collect::<Vec<_>>(),
+                    "hint_index": -1, "hint": "(none)", "mutation": "HONEST RUN FAILS IN THE VM",
+                    "outcome": format!("{:?}", honest), "honest_result": "(failure)",
+                }));
             }
             continue;
         };
+        if let Some(spec) = &meta.spec {
+            if let Some(exp) = expected_from_spec(spec, t) {
+                rep.oracle_checked += 1;
+                let got = match hv {
+                    RunResultValue::Success(xs) => Some(xs.iter().map(|x| x.to_bigint()).collect::<Vec<_>>()),
+                    RunResultValue::Panic(_) => None,
+                };
+                if got.as_ref() != Some(&exp) && rep.violations.len() < 5 {
+                    rep.violations.push(serde_json::json!({
+                        "wrapper": name, "args": t.iter().map(|x| x.to_string()).collect::<Vec<_>>(),
+                        "hint_index": -1, "hint": "(none)",
+                        "mutation": format!("HONEST RESULT WRONG: spec {} {:?}", spec.0, spec.1.iter().map(|x| x.to_string()).collect::<Vec<_>>()),
+                        "outcome": fmt_val(hv),
+                        "honest_result": format!("expected Success{:?}", exp.iter().map(|x| x.to_string()).collect::<Vec<_>>()),
+                    }));
+                }
+            }
+        }
+        if ti % stride != 0 {
+            continue;
+        }
         for occ in &log {
             rep.occurrences += 1;
             *rep.hint_kinds.entry(occ.kind.clone()).or_default() += 1;
@@ -344,6 +585,14 @@ pub fn explore(name: &str, program: &Program, param_tys: &[Ty], full: bool, seed
                     continue;
                 }
                 rep.mutated += 1;
+                let lie = if mname.starts_with("cell") {
+                    mname.split(':').nth(1).unwrap_or("").to_string()
+                } else if mname.starts_with("swap") {
+                    "swap".to_string()
+                } else {
+                    mname.clone()
+                };
+                *rep.lies.entry((occ.kind.clone(), lie)).or_default() += 1;
                 let case = serde_json::json!({
                     "wrapper": name,
                     "args": t.iter().map(|x| x.to_string()).collect::<Vec<_>>(),
